@@ -175,6 +175,13 @@ type c12Meta struct {
 	// ViaSymlink: the module is reached through a symbolic link to its directory (the working directory
 	// of every run is the link)
 	ViaSymlink bool `json:"via_symlink,omitempty"`
+	// Invocation: how every run of the history names its files and what it finds in the environment.
+	// 0: setup file relative to the module root, default output; 1: setup file by its real absolute path, `-out` through a
+	// symbolic link to the module directory; 2: the other way round; 3: as under `go generate` started from a file of
+	// ANOTHER package (GOPACKAGE/GOFILE/GOLINE describe that file, the setup file is the argument); 4: `-out` by its
+	// absolute path, setup file relative; 5: `-dry -print` (nothing is written: what is announced on stdout must not depend on
+	// what the output path holds either). The output path is the default one in every case.
+	Invocation int `json:"invocation,omitempty"`
 }
 
 type c12Obs struct {
@@ -207,12 +214,27 @@ func readOpt(p string) *string {
 	return &s
 }
 
-func c12RunOnce(env *hx.Env, root string) (c12Obs, bool) {
+func c12RunOnce(env *hx.Env, root string, inv int) (c12Obs, bool) {
 	cwd := root
-	if l := root + "-link"; hx.Exists(l) {
-		cwd = l
+	link := root + "-link"
+	if inv == 0 && hx.Exists(link) {
+		cwd = link
 	}
-	res := hx.Run(env.Bin, hx.RunOpts{Dir: cwd, Args: []string{pg.SetupPath}, Env: []string{"PWD=" + cwd}, Timeout: 90 * time.Second})
+	args := []string{pg.SetupPath}
+	e := []string{"PWD=" + cwd}
+	switch inv {
+	case 1:
+		args = []string{"-out", filepath.Join(link, filepath.FromSlash(pg.OutPath)), filepath.Join(root, filepath.FromSlash(pg.SetupPath))}
+	case 2:
+		args = []string{"-out", filepath.Join(root, filepath.FromSlash(pg.OutPath)), filepath.Join(link, filepath.FromSlash(pg.SetupPath))}
+	case 3:
+		e = append(e, "GOPACKAGE=tools", "GOFILE=gen.go", "GOLINE=3", "GOARCH=amd64", "GOOS=linux")
+	case 4:
+		args = []string{"-out", filepath.Join(root, filepath.FromSlash(pg.OutPath)), pg.SetupPath}
+	case 5:
+		args = []string{"-dry", "-print", pg.SetupPath}
+	}
+	res := hx.Run(env.Bin, hx.RunOpts{Dir: cwd, Args: args, Env: e, Timeout: 90 * time.Second})
 	return c12Obs{Exit: res.Exit, Stdout: res.Stdout, Stderr: res.Stderr, Out: readOpt(filepath.Join(root, filepath.FromSlash(pg.OutPath)))}, res.TimedOut
 }
 
@@ -276,7 +298,7 @@ func c12Judge(env *hx.Env, m c12Meta, rec *hx.Recorder) (hx.Verdict, int) {
 	if err := hx.WriteTree(root, base); err != nil {
 		return hx.Failf("harness|io", "%v", err), 0
 	}
-	if m.ViaSymlink {
+	if m.ViaSymlink || m.Invocation == 1 || m.Invocation == 2 {
 		if err := os.Symlink(root, root+"-link"); err != nil {
 			return hx.Failf("harness|io", "%v", err), 0
 		}
@@ -325,7 +347,7 @@ func c12Judge(env *hx.Env, m c12Meta, rec *hx.Recorder) (hx.Verdict, int) {
 			}
 			pre := readOpt(outAbs)
 			_ = os.Remove(outAbs)
-			ref, to := c12RunOnce(env, root)
+			ref, to := c12RunOnce(env, root, m.Invocation)
 			if to {
 				return hx.Verdict{OK: true, Inconclusive: true}, judged
 			}
@@ -336,13 +358,14 @@ func c12Judge(env *hx.Env, m c12Meta, rec *hx.Recorder) (hx.Verdict, int) {
 			if pre != nil {
 				_ = os.WriteFile(outAbs, []byte(*pre), 0o644)
 			}
-			got, to := c12RunOnce(env, root)
+			got, to := c12RunOnce(env, root, m.Invocation)
 			if to {
 				return hx.Verdict{OK: true, Inconclusive: true}, judged
 			}
 			// a failed run must leave the path as it was (C15); for the comparison with the reference the
 			// relevant observation is what the run itself produced
-			if got.Exit != 0 && ref.Exit != 0 {
+			if got.Exit != 0 && ref.Exit != 0 || m.Invocation == 5 {
+				// (a dry run writes nothing: the path still holds what was put there; whether it does is C15's matter)
 				got.Out, ref.Out = nil, nil
 			}
 			judged++
@@ -363,11 +386,11 @@ func c12Judge(env *hx.Env, m c12Meta, rec *hx.Recorder) (hx.Verdict, int) {
 					i, sym, tail(preTxt, 1200), ref.Exit, tail(ref.Stderr, 600), got.Exit, tail(got.Stderr, 600)), judged
 			}
 			// run; run changes nothing
-			again, to := c12RunOnce(env, root)
+			again, to := c12RunOnce(env, root, m.Invocation)
 			if to {
 				return hx.Verdict{OK: true, Inconclusive: true}, judged
 			}
-			if got.Exit != 0 && again.Exit != 0 {
+			if got.Exit != 0 && again.Exit != 0 || m.Invocation == 5 {
 				again.Out = nil
 			}
 			if ok, sym := again.equal(got); !ok {
@@ -456,6 +479,11 @@ func TestC12(t *testing.T) {
 					m.ViaSymlink = true
 					rec.Class("sweep-points-via-symlink")
 				}
+				// a fifth of the points with another way of naming the files (hash-sampled: independent of the parity above)
+				if h := hx.SplitMix64(uint64(idx)*0x9e3779b97f4a7c15 ^ env.Seed); h%5 == 0 {
+					m.Invocation = 1 + int(h/5%5)
+					rec.Class(fmt.Sprintf("sweep-points-invocation-%d", m.Invocation))
+				}
 				if strings.Contains(out[:k], "package ") && !strings.Contains(out[:k], "package home") && rec.IsKnownOpen("C12|truncate@package-ident-prefix|exit-status-differs") {
 					rec.ExcludedByConstruction("truncation inside the package identifier (open finding C12|truncate@package-ident-prefix)")
 					continue
@@ -519,6 +547,10 @@ func TestC12(t *testing.T) {
 		m.ViaSymlink = rapid.IntRange(0, 3).Draw(rt, "viaSymlink") == 0
 		if m.ViaSymlink {
 			rec.Class("histories-via-symlink")
+		}
+		if rapid.IntRange(0, 3).Draw(rt, "otherInvocation") == 0 {
+			m.Invocation = rapid.IntRange(1, 5).Draw(rt, "invocation")
+			rec.Class(fmt.Sprintf("histories-invocation-%d", m.Invocation))
 		}
 		// open finding: truncation inside the package identifier is excluded by construction (the
 		// judge would otherwise stop every history that happens to cut there)
